@@ -11,6 +11,7 @@ pub mod c01;
 pub mod c02;
 pub mod c03;
 pub mod c13;
+pub mod c14;
 pub mod c16;
 pub mod ctxgen;
 pub mod hirsample;
@@ -154,6 +155,7 @@ fn main() {
                 "c03" => c03::replay(body),
                 "c16" => c16::replay(body),
                 "c13" => c13::replay(body),
+                "c14" => c14::replay(body),
                 p => {
                     eprintln!("no replay for {}", p);
                     std::process::exit(2)
@@ -202,6 +204,7 @@ fn main() {
                 "c03" => c03::run(&ctx),
                 "c16" => c16::run(&ctx),
                 "c13" => c13::run(&ctx),
+                "c14" => c14::run(&ctx),
                 _ => usage(),
             };
             let mut j = rep.to_json();
